@@ -39,130 +39,198 @@ def _range_consts(t):
     return None
 
 
+_ORDER_CHANGING = ("rev", "next_back", "step_by", "skip", "take", "rfind", "rposition", "last", "max", "min", "max_by_key", "min_by_key")
+
+
 def lookup_shape(F, rep):
+    """The lookup is analysed as a REGION: the method, the helpers it delegates to and its closures, every term converted
+    to the method's own parameters. Two spellings of the look-back are recognised: a loop over a constant range, and
+    `<constant range>.find_map(closure)` (first hit wins by definition of find_map)."""
+    from rules.c08 import _R
     ls = find_lookup(F)
     if len(ls) != 1:
         rep.unresolved("R1", "LOOKUP", f"{len(ls)} converter methods return Result<AwardLookup, _>")
         return
     b = ls[0]
+    rg = _R(F).region(b, depth=2)
     tb = Terms(F, b, inline_depth=0)
     site = b.loc()
-    gets = [(i, t) for i, t in b.calls() if parse_callee(t["callee"])[2] == "get" and "HashMap" in t["callee"]]
+    is_map_get = lambda cal: parse_callee(cal)[2] == "get" and ("HashMap" in cal or "BTreeMap" in cal)
+    gets = [it for it in rg.items if is_map_get(it["term"]["callee"])]
+    # ---- the look-back construct
     loops = b.loops()
-    if len(loops) != 1:
-        rep.ob("R1", "get_fmv:one-loop", False, f"{len(loops)} loops in the lookup (expected the single look-back loop)", site, key="R1:lookup:loops")
+    fms = [it for it in rg.items if it["body"] is b and parse_callee(it["term"]["callee"])[2] == "find_map"
+           and _range_consts(tb.operand(it["term"]["args"][0])) is not None]
+    form = None
+    if len(loops) == 1 and not fms:
+        header, blks = loops[0]
+        form = "loop"
+        anchor = header
+        in_window = lambda ex_or_it, bb=None: (ex_or_it["root_bb"] if ex_or_it.get("root_bb") is not None else bb) in blks
+        has_loop_var = lambda t: any(isinstance(x, tuple) and x and x[0] == "call" and parse_callee(x[1])[2] == "next" for x in subterms(t))
+    elif len(fms) == 1 and not loops:
+        fm = fms[0]
+        form = "find_map"
+        anchor = fm["bb"]
+        clo = tb.operand(fm["term"]["args"][1])
+        cid = clo[1] if isinstance(clo, tuple) and clo and clo[0] == "closure" else None
+        in_window = lambda ex_or_it, bb=None: cid in ex_or_it["path"]
+        has_loop_var = lambda t: any(isinstance(x, tuple) and x and x[0] == "cparam" and x[1] == cid and x[2] == 1 for x in subterms(t))
+    else:
+        rep.ob("R1", "get_fmv:one-loop", False, f"{len(loops)} loops and {len(fms)} find_map over a constant range in the lookup "
+               "(expected a single look-back: one loop or one find_map)", site, key="R1:lookup:loops")
         return
-    header, blks = loops[0]
-    pre = [(i, t) for i, t in gets if i not in blks]
-    inl = [(i, t) for i, t in gets if i in blks]
-    # exact first
+    rep.note(f"R1: look-back spelled as {form}; region = {sorted(x.short for x in rg.bodies.values())}")
+    key_of = lambda it: rg.arg(it, 1)
+    pre = [it for it in gets if not in_window(it, it["bb"])]
+    inl = [it for it in gets if in_window(it, it["bb"])]
+    # ---- exact first
     ok = False
-    why = "no map probe before the look-back loop"
+    why = "no map probe before the look-back"
     date_param = None
-    for i, t in pre:
-        key = tb.operand(t["args"][1])
+    for it in pre:
+        key = key_of(it)
         if isinstance(key, tuple) and key and key[0] == "tuple" and len(key[1]) == 2:
             sym, dt = key[1]
             if isinstance(dt, tuple) and dt and dt[0] == "param":
                 date_param = dt
-                ok = b.dominates(i, header)
-                why = "the exact (symbol, deposit date) key is probed before the look-back loop" if ok else "exact probe does not dominate the loop"
+                ok = b.dominates(it["root_bb"], anchor)
+                why = "the exact (symbol, deposit date) key is probed before the look-back" if ok else "exact probe does not dominate the look-back"
     rep.ob("R1", "lookup:exact-first", ok, why, site, key="R1:lookup:exact-first")
-    # exact hit returns vest_date = deposit date
-    for i, si, s in b.assigns():
-        rv = s["rv"]
-        if rv["k"] == "agg" and rv["adt"].endswith("::AwardLookup"):
-            f = dict(zip(rv["fields"], [tb.operand(o) for o in rv["ops"]]))
-            in_loop = any(b.dominates(gi, i) for gi, _ in inl)
-            vd = f.get("vest_date")
-            fmv = f.get("fmv")
-            fmv_from_get = any(isinstance(x, tuple) and x and x[0] == "call" and parse_callee(x[1])[2] == "get" for x in subterms(fmv))
-            rep.ob("R1", f"lookup:{'window' if in_loop else 'exact'}:fmv-from-map", fmv_from_get,
-                   "price comes from the map entry that was found" if fmv_from_get else f"price is {show(fmv)[:60]}, not the probed map entry",
-                   b.loc(s["sp"]), key=f"R1:lookup:{'window' if in_loop else 'exact'}:fmv")
-            if not in_loop:
-                okv = vd == date_param
-                rep.ob("R1", "lookup:exact:vest-date", okv, "exact hit is dated at the deposit date" if okv else
-                       f"exact hit is dated {show(vd)[:50]}", b.loc(s["sp"]), key="R1:lookup:exact:vest-date")
-            else:
-                # vest date is the probed date, and the map key used that same date
-                probe = None
-                for j, u in inl:
-                    key = tb.operand(u["args"][1])
-                    if isinstance(key, tuple) and key and key[0] == "tuple" and len(key[1]) == 2:
-                        probe = key[1][1]
-                okv = probe is not None and vd == probe
-                rep.ob("R1", "lookup:window:vest-date", okv, "a look-back hit is dated at the probed (earlier) date" if okv else
-                       f"look-back hit is dated {show(vd)[:60]} but the probe used {show(probe)[:60]}", b.loc(s["sp"]),
-                       key="R1:lookup:window:vest-date")
-    # loop range and direction
-    nexts = [(i, t) for i, t in b.calls() if i in blks and parse_callee(t["callee"])[2] == "next"]
+    probe = None
+    for it in inl:
+        key = key_of(it)
+        if isinstance(key, tuple) and key and key[0] == "tuple" and len(key[1]) == 2:
+            probe = key[1][1]
+
+    def from_get(t):
+        if any(isinstance(x, tuple) and x and x[0] == "call" and is_map_get(x[1]) for x in subterms(t)):
+            return True
+        # the parameter of a closure applied to the probe's result (`get(..).map(|fmv| ..)`)
+        for x in subterms(t):
+            if isinstance(x, tuple) and x and x[0] == "cparam":
+                for it in rg.items:
+                    args = [it["tb"].operand(a) for a in it["term"]["args"]]
+                    if any(isinstance(a, tuple) and a and a[0] == "closure" and a[1] == x[1] for a in args[1:]) and \
+                            parse_callee(it["term"]["callee"])[2] in ("map", "and_then", "filter_map") and \
+                            any(isinstance(y, tuple) and y and y[0] == "call" and is_map_get(y[1]) for y in subterms(args[0])):
+                        return True
+        return False
+    # ---- hits: vest date and price
+    nagg = 0
+    for ex in rg.expansions:
+        hb, ht, conv = ex["body"], ex["tb"], ex["conv"]
+        for i, si, s in hb.assigns():
+            rv = s["rv"]
+            if rv["k"] == "agg" and rv["adt"].endswith("::AwardLookup"):
+                nagg += 1
+                f = dict(zip(rv["fields"], [conv(ht.operand(o)) for o in rv["ops"]]))
+                if hb is b:
+                    win = in_window(dict(root_bb=i, path=ex["path"]), i) if form == "loop" else False
+                    if form == "loop":
+                        win = any(b.dominates(g["root_bb"], i) for g in inl)
+                else:
+                    win = in_window(ex, i)
+                vd, fmv = f.get("vest_date"), f.get("fmv")
+                okf = from_get(fmv)
+                rep.ob("R1", f"lookup:{'window' if win else 'exact'}:fmv-from-map", okf,
+                       "price comes from the map entry that was found" if okf else f"price is {show(fmv)[:60]}, not the probed map entry",
+                       hb.loc(s["sp"]), key=f"R1:lookup:{'window' if win else 'exact'}:fmv")
+                if not win:
+                    okv = vd == date_param
+                    rep.ob("R1", "lookup:exact:vest-date", okv, "exact hit is dated at the deposit date" if okv else
+                           f"exact hit is dated {show(vd)[:50]}", hb.loc(s["sp"]), key="R1:lookup:exact:vest-date")
+                else:
+                    okv = probe is not None and vd == probe
+                    rep.ob("R1", "lookup:window:vest-date", okv, "a look-back hit is dated at the probed (earlier) date" if okv else
+                           f"look-back hit is dated {show(vd)[:60]} but the probe used {show(probe)[:60]}", hb.loc(s["sp"]),
+                           key="R1:lookup:window:vest-date")
+    if nagg < 2:
+        rep.unresolved("R1", "hits", f"{nagg} AwardLookup constructions seen through the region (exact and look-back expected)")
+    # ---- range and direction
     rng = None
     rev = False
-    for i, t in nexts:
-        it = tb.operand(t["args"][0])
-        rng = _range_consts(it)
-        rev = any(isinstance(x, tuple) and x and x[0] == "call" and parse_callee(x[1])[2] in ("rev", "next_back", "step_by", "skip", "take") for x in subterms(it))
-        if "Rev<" in (t.get("aty") or [""])[0] or "StepBy" in (t.get("aty") or [""])[0]:
-            rev = True
+    if form == "loop":
+        for it in rg.items:
+            if it["body"] is b and it["bb"] in blks and parse_callee(it["term"]["callee"])[2] == "next":
+                recv = tb.operand(it["term"]["args"][0])
+                rng = _range_consts(recv) or rng
+                rev = rev or any(isinstance(x, tuple) and x and x[0] == "call" and parse_callee(x[1])[2] in _ORDER_CHANGING for x in subterms(recv))
+                aty = (it["term"].get("aty") or [""])[0]
+                if "Rev<" in aty or "StepBy" in aty:
+                    rev = True
+    else:
+        recv = tb.operand(fm["term"]["args"][0])
+        rng = _range_consts(recv)
+        aty = (fm["term"].get("aty") or [""])[0]
+        rev = any(isinstance(x, tuple) and x and x[0] == "call" and parse_callee(x[1])[2] in _ORDER_CHANGING for x in subterms(recv)) \
+            or "Rev<" in aty or "StepBy" in aty
     okr = rng is not None and (rng[1], rng[2]) == (1, 7)
     rep.ob("R1", "lookup:window-1..=7", okr, "look-back range evaluates to 1..=7 days" if okr else
            f"look-back range is {('%d..=%d' % (rng[1], rng[2])) if rng else 'not a constant range'}, the property states 1 to 7 days",
            site, key="R1:lookup:window-range")
     rep.ob("R1", "lookup:nearest-first", not rev, "the range is walked forwards (nearest earlier date first)" if not rev else
            "the look-back range is reversed/stepped: a farther vest date can win over a nearer one", site, key="R1:lookup:direction")
-    # probe date = deposit − days(k)
-    subs = [(i, t) for i, t in b.calls() if i in blks and parse_callee(t["callee"])[2] in
-            ("checked_sub_signed", "checked_add_signed", "checked_sub_days", "checked_add_days", "sub", "add", "pred_opt", "succ_opt")]
+    # ---- probe date = deposit − days(k)
     okp = False
-    whyp = "no date arithmetic found in the look-back loop"
-    for i, t in subs:
-        m = parse_callee(t["callee"])[2]
-        args = [tb.operand(a) for a in t["args"]]
+    whyp = "no date arithmetic found in the look-back"
+    for it in rg.items:
+        m = parse_callee(it["term"]["callee"])[2]
+        if m not in ("checked_sub_signed", "checked_add_signed", "checked_sub_days", "checked_add_days", "sub", "add", "pred_opt", "succ_opt"):
+            continue
+        if "chrono" not in it["term"]["callee"] and "NaiveDate" not in " ".join(it["term"].get("aty") or []):
+            continue
+        if not in_window(it, it["bb"]):
+            continue
+        args = [rg.arg(it, k) for k in range(len(it["term"]["args"]))]
         if "add" in m or "succ" in m:
             whyp = f"the probe date is computed with {m}: dates AFTER the deposit would be used"
             okp = False
             break
         if m.startswith("checked_sub") and args and args[0] == date_param:
             k = args[1]
-            uses_loop_var = any(isinstance(x, tuple) and x and x[0] == "call" and parse_callee(x[1])[2] == "next" for x in subterms(k))
             days = any(isinstance(x, tuple) and x and x[0] == "call" and parse_callee(x[1])[2] == "days" for x in subterms(k))
-            okp = uses_loop_var and days
-            whyp = "probe date is deposit − days(k) for the loop variable k" if okp else f"probe offset is {show(k)[:60]}"
+            okp = has_loop_var(k) and days
+            whyp = "probe date is deposit − days(k) for the look-back variable k" if okp else f"probe offset is {show(k)[:60]}"
     rep.ob("R1", "lookup:probe=deposit−k", okp, whyp, site, key="R1:lookup:probe-date")
-    # first hit returns from inside the loop
-    rets_in_loop = False
-    for i, si, s in b.assigns():
-        rv = s["rv"]
-        if rv["k"] == "agg" and rv["adt"] == "core::result::Result" and rv["variant"] == "Ok" and i in blks or \
-                (rv["k"] == "agg" and rv["adt"] == "core::result::Result" and rv["variant"] == "Ok" and any(p in blks for p in b.pred(i))):
-            nxt = b.reach_from(i)
-            if header not in nxt:
-                rets_in_loop = True
-    rep.ob("R1", "lookup:first-hit-returns", rets_in_loop, "the first hit leaves the loop with Ok(..)" if rets_in_loop else
+    # ---- first hit wins
+    if form == "loop":
+        rets_in_loop = False
+        for i, si, s in b.assigns():
+            rv = s["rv"]
+            if rv["k"] == "agg" and rv["adt"] == "core::result::Result" and rv["variant"] == "Ok" and (i in blks or any(p in blks for p in b.pred(i))):
+                if header not in b.reach_from(i):
+                    rets_in_loop = True
+    else:
+        rets_in_loop = True   # Iterator::find_map stops at the first Some
+    rep.ob("R1", "lookup:first-hit-returns", rets_in_loop, "the first hit ends the look-back" if rets_in_loop else
            "a hit inside the look-back loop does not return immediately: a later (farther) date can overwrite it", site,
            key="R1:lookup:first-hit")
-    # symbols upper-cased on both sides
-    for i, t in gets:
-        key = tb.operand(t["args"][1])
+    # ---- symbols upper-cased on both sides
+    for it in gets:
+        key = key_of(it)
         sym = key[1][0] if isinstance(key, tuple) and key and key[0] == "tuple" else None
         up = sym is not None and any(isinstance(x, tuple) and x and x[0] == "call" and parse_callee(x[1])[2] in ("to_uppercase", "to_ascii_uppercase") for x in subterms(sym))
-        rep.ob("R1", f"lookup:query-symbol-uppercase@{'loop' if i in blks else 'exact'}", up,
-               "queried symbol is upper-cased" if up else f"queried symbol is {show(sym)[:40]} (not upper-cased)", b.loc(t["sp"]),
+        rep.ob("R1", f"lookup:query-symbol-uppercase@{'loop' if in_window(it, it['bb']) else 'exact'}", up,
+               "queried symbol is upper-cased" if up else f"queried symbol is {show(sym)[:40]} (not upper-cased)", it["body"].loc(it["term"]["sp"]),
                key="R1:lookup:query-symbol-case")
-    # fall-through error, no defaults
+    # ---- fall-through error, no defaults
     errs = []
-    for i, si, s in b.assigns():
-        rv = s["rv"]
-        if rv["k"] == "agg" and rv["adt"].endswith("::ConvertError"):
-            errs.append((rv["variant"], [tb.operand(o) for o in rv["ops"]], s))
+    seen_err = set()
+    for ex in rg.expansions:
+        hb, ht, conv = ex["body"], ex["tb"], ex["conv"]
+        for i, si, s in hb.assigns():
+            rv = s["rv"]
+            if rv["k"] == "agg" and rv["adt"].endswith("::ConvertError") and (hb.id, i, si) not in seen_err:
+                seen_err.add((hb.id, i, si))
+                errs.append((rv["variant"], [conv(ht.operand(o)) for o in rv["ops"]], s))
     okE = len(errs) == 1 and errs[0][0] == "MissingFairMarketValue"
     if okE:
         txt = " ".join(show(x) for x in errs[0][1])
         okE = "symbol" in txt and "date" in txt
     rep.ob("R1", "lookup:fallthrough-error", okE, "no hit ends in Err(MissingFairMarketValue{symbol, date})" if okE else
            f"fall-through is {[e[0] for e in errs]} — must be MissingFairMarketValue naming symbol and date", site, key="R1:lookup:fallthrough")
-    dfl = [t["callee"] for i, t in b.calls() if parse_callee(t["callee"])[2] in DEFAULTING]
+    dfl = sorted({it["term"]["callee"] for it in rg.items if parse_callee(it["term"]["callee"])[2] in DEFAULTING})
     rep.ob("R1", "lookup:no-default", not dfl, "no lookup result is defaulted" if not dfl else f"lookup defaults a missing value via {dfl}",
            site, key="R1:lookup:defaulting")
 
@@ -231,7 +299,9 @@ def map_building(F, rep):
            "the fallback price is inserted under a test of the flag set by the vest-entry insert" if guarded >= 1 else
            "the fallback price is inserted unconditionally: it can shadow a vest-date entry", b.loc(), key="R2:build:fallback-guard")
     # empty details on a vesting action -> error
-    errs = [s for i, si, s in b.assigns() if s["rv"]["k"] == "agg" and s["rv"]["adt"].endswith("::ConvertError")]
+    from rules.c08 import _R
+    brg = _R(F).region(b, depth=1)
+    errs = [s for hb in brg.bodies.values() for i, si, s in hb.assigns() if s["rv"]["k"] == "agg" and s["rv"]["adt"].endswith("::ConvertError")]
     empties = [i for i, t in b.calls() if parse_callee(t["callee"])[2] == "is_empty"]
     rep.ob("R2", "build:empty-details-error", bool(errs) and bool(empties),
            "a vesting action without details is an error" if errs and empties else
